@@ -319,6 +319,9 @@ func (w *world) checkTx(ob *vh.ObservedBlock, i int, p *plan) {
 	case "view":
 		w.checkViewTx(ob, i, p)
 		return
+	case "viewseq":
+		w.checkViewSequence(ob, i, p)
+		return
 	case "op":
 	default:
 		return
